@@ -1543,11 +1543,49 @@ pub fn check(ctx: &CheckCtx) -> Option<Found> {
     None
 }
 
+/// Byte decoder for the libFuzzer target: same alphabet and weights as `case_strategy`.
+fn case_from_bytes(data: &[u8], max_len: usize, avoid_f11: bool) -> Case {
+    use crate::hist::fuzzgen::Dec;
+    let mut d = Dec::new(data);
+    let emb = if d.bool() { Emb::Comp } else { Emb::Top };
+    let kind = if d.pickw(&[2, 1]) == 0 { Kind::Fd } else { Kind::Timer };
+    let from = d.pickw(&[5, 1]) == 0;
+    let act = |d: &mut Dec| match d.pickw(&[4, 1, 2]) {
+        0 => Act::None,
+        1 => Act::Remove,
+        _ => Act::Replace,
+    };
+    let mut ops = Vec::new();
+    while ops.len() < max_len && !d.is_empty() {
+        ops.push(match d.pickw(&[6, 2, 1, 1, 3, 1, 2, 2, 2, 1]) {
+            0 => {
+                let ret = match d.pickw(&[6, 4, if avoid_f11 { 1 } else { 4 }, 2]) {
+                    0 => Ret::Continue,
+                    1 => Ret::Reregister,
+                    2 => Ret::Disable,
+                    _ => Ret::Remove,
+                };
+                Op::Fire { ret, act: act(&mut d) }
+            }
+            1 => Op::FireSibling { act: act(&mut d) },
+            2 => Op::FireOld,
+            3 => Op::Remove,
+            4 => Op::Replace,
+            5 => Op::Map,
+            6 => Op::Enable,
+            7 => Op::Disable,
+            8 => Op::Update,
+            _ => Op::Dispatch,
+        });
+    }
+    Case { emb, kind, from, ops }
+}
+
 pub fn fuzz_subs(ctx: &CheckCtx) -> Vec<crate::fuzz::FuzzSub> {
     let avoid = ctx.known_open(SIG_F11);
     vec![
-        crate::fuzz::sub("hist", case_strategy(14, avoid), move |c: &Case| run_case_with(c, avoid)),
-        crate::fuzz::sub("hist_long", case_strategy(30, avoid), move |c: &Case| run_case_with(c, avoid)),
+        crate::fuzz::sub("hist", move |data: &[u8]| case_from_bytes(data, 14, avoid), move |c: &Case| run_case_with(c, avoid)),
+        crate::fuzz::sub("hist_long", move |data: &[u8]| case_from_bytes(data, 30, avoid), move |c: &Case| run_case_with(c, avoid)),
     ]
 }
 
